@@ -29,6 +29,7 @@ import (
 	"strconv"
 	"strings"
 	"sync"
+	"sync/atomic"
 	"time"
 
 	"github.com/blugelabs/bluge"
@@ -63,7 +64,7 @@ func (*h) Rule() string {
 		"optionally close + reopen on the same directory): 8-20 batches of 1-4 updates/deletes over 12 colliding ids, readers opened at random " +
 		"points (at most 4 held, also OpenReader from disk) and closed at random points; 7% of the batches meet one injected transient failure of the next segment Persist; after every batch a full re-query of all held readers " +
 		"(`check`, concurrent with persister/merger) and/or a quiescent `settle` (reference counts and closers compared) are drawn; always re-queried " +
-		"after writer Close and after reopen. An evaluation is one full re-query of one held reader; it is non-trivial when the reader's snapshot is " +
+		"after writer Close and after reopen; a stress family (6-8 goroutines opening, checking refs >= 1 / no closer run, and closing readers while 2x250 unsafe batches stream) precedes them. An evaluation is one full re-query of one held reader; it is non-trivial when the reader's snapshot is " +
 		"no longer the writer's root (segments superseded, merged away or files removed since it was opened)"
 }
 
@@ -86,6 +87,37 @@ func (*h) Gen(r *hlib.Rand, tier string, scale int, emit func(string)) {
 		"open", "batchf u3:4", "settle", "openfs", "batch u1:9", "check", "settle", "wclose", "check", "reopen", "check", "batch u4:5,d2", "settle",
 		"check", "wclose", "check", "close 0", "settle", "close 1", "end"} {
 		emit(l)
+	}
+	// stress family: goroutines open/check/close readers as fast as they can while unsafe batches stream (a new
+	// root every few hundred microseconds) on directories whose loaded segments are ref-counted; afterwards the
+	// exact reference-count comparison and a full re-query of a reader held across the whole step
+	nstress, nbatches := 2, 250
+	if tier == "thorough" {
+		nstress, nbatches = 12*scale, 500
+	}
+	for k := 0; k < nstress; k++ {
+		dir := []string{"mem", "fs"}[k%2]
+		emit(fmt.Sprintf("case s%d dir=%s unsafe=1 tier=%d task=2 growth=20 minmem=2", k, dir, 1+k%2))
+		emit("wopen")
+		emit("batch u0:1,u1:2,u2:3")
+		emit("open")
+		for round := 0; round < 2; round++ {
+			bs := make([]string, nbatches)
+			for i := range bs {
+				if r.Chance(25) {
+					bs[i] = fmt.Sprintf("d%d", r.Intn(12))
+				} else {
+					bs[i] = fmt.Sprintf("u%d:%d", r.Intn(12), r.Intn(1000))
+				}
+			}
+			emit(fmt.Sprintf("stress %d %s", 6+2*(k%2), strings.Join(bs, ";")))
+			emit("settle")
+			emit("check")
+		}
+		emit("wclose")
+		emit("check")
+		emit("close 0")
+		emit("end")
 	}
 	for c := 0; c < cases; c++ {
 		dir := "fs"
@@ -1168,6 +1200,16 @@ func (c *child) do(line string) {
 			slot, _ = strconv.Atoi(w[1])
 		}
 		c.closeReader(slot)
+	case "stress":
+		if !c.wopen || len(w) < 3 {
+			c.pair(line, "na")
+			return
+		}
+		g, _ := strconv.Atoi(w[1])
+		res := c.stress(g, strings.Split(w[2], ";"))
+		c.emitEvents(nil)
+		c.pair(line, res)
+		c.stat("op:stress", 1)
 	case "check":
 		c.emitEvents(nil)
 		c.mu.Lock()
@@ -1234,6 +1276,125 @@ func (c *child) do(line string) {
 	default:
 		c.pair(line, "bad-op")
 	}
+}
+
+func buildBatch(ops string) *index.Batch {
+	b := bluge.NewBatch()
+	for _, op := range strings.Split(ops, ",") {
+		if strings.HasPrefix(op, "d") {
+			id, _ := strconv.Atoi(op[1:])
+			b.Delete(bluge.Identifier(fmt.Sprintf("d%03d", id)))
+		} else if strings.HasPrefix(op, "u") {
+			f := strings.Split(op[1:], ":")
+			id, _ := strconv.Atoi(f[0])
+			body := 0
+			if len(f) > 1 {
+				body, _ = strconv.Atoi(f[1])
+			}
+			d := docFor(id, body)
+			b.Update(d.ID(), d)
+		}
+	}
+	return b
+}
+
+// checkAlive: what must hold for ANY reader the writer hands out, at any moment while it is held: its snapshot
+// and every counted segment of it have at least one reference and no closer of theirs has run.
+func (c *child) checkAlive(s *index.Snapshot) string {
+	if n := s.VerifRefs(); n < 1 {
+		return fmt.Sprintf("released:snapshot-epoch-%d-refs-%d", s.VerifEpoch(), n)
+	}
+	refs := s.VerifSegmentRefs()
+	for i, ss := range s.Segments() {
+		if refs[i] == -1 {
+			continue
+		}
+		if refs[i] < 1 {
+			return fmt.Sprintf("released:segment-%d-refs-%d-in-held-snapshot-epoch-%d", ss.ID(), refs[i], s.VerifEpoch())
+		}
+		c.ds.mu.Lock()
+		k := c.ds.closes[fmt.Sprintf("w%d#%d", ss.ID(), c.ds.wloads[ss.ID()])]
+		c.ds.mu.Unlock()
+		if k > 0 {
+			return fmt.Sprintf("released:closer-of-segment-%d-ran-while-held-epoch-%d", ss.ID(), s.VerifEpoch())
+		}
+	}
+	return ""
+}
+
+// stress: g goroutines open, check and close readers as fast as they can while the batches stream. Every reader
+// opened and closed inside the step nets to nothing in the reference-count model, so the exact comparison at the
+// next `settle` still applies; a snapshot handed out after its last reference was dropped shows up either here
+// (released:…), as a fault of the child, or as a reference-count / closer mismatch at that settle.
+func (c *child) stress(g int, batches []string) string {
+	var stop int32
+	var wg sync.WaitGroup
+	var mu sync.Mutex
+	bad := ""
+	opens := 0
+	for i := 0; i < g; i++ {
+		wg.Add(1)
+		go func(i int) {
+			defer wg.Done()
+			defer func() {
+				if e := recover(); e != nil {
+					mu.Lock()
+					if bad == "" {
+						bad = "released:panic-using-a-reader"
+					}
+					mu.Unlock()
+				}
+			}()
+			n := 0
+			for atomic.LoadInt32(&stop) == 0 {
+				s, err := c.writer.Reader()
+				if err != nil || s == nil {
+					continue
+				}
+				r := c.checkAlive(s)
+				n++
+				if r == "" && n%16 == i%16 {
+					if _, e := collect(snapReader{s, c.cfg}, bluge.NewTopNSearch(topN, term("common"))); e != nil {
+						r = "released:search-error-on-a-held-reader"
+					}
+					if r == "" {
+						r = c.checkAlive(s)
+					}
+				}
+				_ = s.Close()
+				if r != "" {
+					mu.Lock()
+					if bad == "" {
+						bad = r
+					}
+					mu.Unlock()
+				}
+			}
+			mu.Lock()
+			opens += n
+			mu.Unlock()
+		}(i)
+	}
+	nerr := 0
+	for _, ops := range batches {
+		if err := c.writer.Batch(buildBatch(ops)); err != nil {
+			nerr++
+		}
+	}
+	atomic.StoreInt32(&stop, 1)
+	wg.Wait()
+	c.stat("stress:reader-opens", opens)
+	c.stat("stress:batches", len(batches))
+	if nerr > 0 {
+		c.stat("stress:batch-errors", nerr)
+	}
+	if bad != "" {
+		return bad
+	}
+	if nerr > 0 {
+		return "err"
+	}
+	return "ok"
 }
 
 func b2i(b bool) int {
